@@ -26,7 +26,8 @@ def model_selection(ctx, conf, mode, run=(), skip=(), testfiles=()):
     binp = ctx.build_test("internal/app/connectconformance", False, "cc")
     if not binp:
         return None
-    outp = os.path.join(ctx.W, "emit-%d.txt" % (len(os.listdir(ctx.W))))
+    import uuid
+    outp = os.path.join(ctx.W, "emit-%s.txt" % uuid.uuid4().hex)
     env = dict(ctx.env, VERIF_EMIT_OUT=outp, VERIF_EMIT_CONF=conf or "", VERIF_EMIT_MODE=mode,
                VERIF_EMIT_RUN="\n".join(run), VERIF_EMIT_SKIP="\n".join(skip), VERIF_EMIT_TESTFILES="\n".join(testfiles))
     p = subprocess.run([binp, "-test.run", "^TestVerifEmitSelection$"], cwd=os.path.join(REPO, "internal/app/connectconformance"),
@@ -36,7 +37,7 @@ def model_selection(ctx, conf, mode, run=(), skip=(), testfiles=()):
         return None
     sel = {}
     for line in open(outp):
-        f = line.rstrip("\n").split("\t")
+        f = line.rstrip("\n").rsplit("\t", 5)
         sel[f[0]] = {"protocol": int(f[1]), "version": int(f[2]), "tls": f[3] == "true", "certs": f[4] == "true", "stream": int(f[5])}
     return sel
 
